@@ -91,9 +91,9 @@ def handle (cmd : String) (fs : List String) : String :=
     showRes (buildLine { outs := decodeStrList outs, implicitOuts := decodeStrList imp, rule := decodeStr rule,
                          useRsp := rsp == "1", ins := decodeStrList ins, deps := decodeStrList deps,
                          orderdeps := decodeStrList od })
-  | "envhash", [n, ks, vs] =>
-    let n := natOf n
-    encodeStr (envHashInput ((padTo n (decodeStrList ks)).zip (padTo n (decodeStrList vs))))
+  | "envhash", [u] =>
+    -- R := the unset component of the hashed pair (the operations are passed through unchanged)
+    encodeStrList ((envHashInput (fun x => x.2.flatMap (fun s => s ++ ['\n'])) [] (decodeStrList u)).splitOn '\n' |>.dropLast)
   | "cheader", [nasm, mac, ks, kinds, vs, ds] =>
     let n := (natList kinds).length
     let vals := ((natList kinds).zip (padTo n (decodeStrList vs))).map fun (k, v) => parseVal k v
@@ -125,6 +125,12 @@ def handle (cmd : String) (fs : List String) : String :=
     let deps := if keys.isEmpty then [] else (ds.splitOn ";").map decodeStrList
     let df := (padTo deps.length keys).zip deps
     encodeStrList (getAllDependenciesDfs df (decodeStr name)) ++ "#" ++ encodeStrList (getAllDependencies df (decodeStr name))
+  | "formatreqs", [reqs, names, vs] =>
+    -- names: packages that carry constraints; vs: their constraint sets in iteration order, `;` separated
+    let ns := decodeStrList names
+    let sets := if ns.isEmpty then [] else (vs.splitOn ";").map decodeStrList
+    let tbl := ns.zip sets
+    encodeStr (formatReqs (decodeStrList reqs) (fun n => (tbl.lookup n).getD []))
   | "gnuarg", [isC, rc, err] =>
     let r : CheckResult := ⟨(rc.trimAscii.toString.toInt?).getD 0, [], decodeStr err⟩
     boolStr (gnuHasArguments (isC == "1") r) ++ boolStr (reconfigureVerdict (gnuHasArguments (isC == "1")) id (fun (_ : Unit) => r) ())
